@@ -230,7 +230,8 @@ func scenC08(run *vlab.Run, sx, tmp string) {
 
 // ---------------------------------------------------------------------------
 
-var c14hostile = []string{`quote " backslash \ slash /`, "line\nbreak\r\ttab", "nul\x00 bell\x07 esc\x1b", "ls\u2028ps\u2029", `<script>alert("x")</script>&amp;`, "日本語 😀 é", `","ip":"6.6.6.6`, "}\n{\"scan\":\"fake\"}", "%s %d %!v(MISSING) %%", strings.Repeat("long ", 5000), "\ufeffbom", "{{.}} ${x} $(id) `id`"}
+var c14hostile = []string{`quote " backslash \ slash /`, "line\nbreak\r\ttab", "nul\x00 bell\x07 esc\x1b", "ls\u2028ps\u2029", `<script>alert("x")</script>&amp;`, "日本語 😀 é", `","ip":"6.6.6.6`, "}\n{\"scan\":\"fake\"}", "%s %d %!v(MISSING) %%", strings.Repeat("long ", 5000), "\ufeffbom", "{{.}} ${x} $(id) `id`",
+	`R\u0026D`, `a\u003cb\u003ec`, `\\u0026 \u0026 &`, `back\slash u0026`}
 
 func scenC14(run *vlab.Run, sx, tmp string) {
 	rng := run.Rand("c14wire")
